@@ -468,6 +468,9 @@ func (w *world) genOp(st *state, sender *holder, baseFee *big.Int) *op {
 	if dyn {
 		feeCap = new(big.Int).Mul(baseFee, big.NewInt(3))
 		tip = vh.Pick(r, []*big.Int{new(big.Int), big.NewInt(int64(r.Intn(1000))), new(big.Int).Set(baseFee), new(big.Int).Mul(baseFee, big.NewInt(2)), new(big.Int).Mul(baseFee, big.NewInt(3))})
+		if tip.Cmp(feeCap) > 0 {
+			tip = new(big.Int).Set(feeCap)
+		}
 		price = new(big.Int).Add(baseFee, tip)
 		if price.Cmp(feeCap) > 0 {
 			price = feeCap
@@ -689,4 +692,37 @@ func (w *world) genSeq(st *state, sender *holder, baseFee *big.Int) *op {
 		*st = *inflight
 	}
 	return o
+}
+
+// directOp builds a plain direct call of sender to the token's precompile.
+func (w *world) directOp(sender *holder, c *call) *op {
+	c.encode()
+	o := &op{Sender: sender, Call: c, Gas: 200_000, GasCls: "ample", Value: new(big.Int)}
+	to := w.tok[c.Tok]
+	price := new(big.Int).Mul(w.c.BaseFee(), big.NewInt(2))
+	o.Note = fmt.Sprintf("token=%s %s(%s,%s,%s) caller=%s", denoms[c.Tok], c.Method, w.nameOf(c.A1), w.nameOf(c.A2), c.Amount, sender.Name)
+	o.Bytes, o.Tx = w.c.EthTx(sender.Acct, vh.LegacyTx(w.c.Nonce(sender.Addr), &to, nil, o.Gas, price, c.Data))
+	return o
+}
+
+// prelude is the shortest history that separates the two tokens' allowances: eoa0 approves eoa1 for 1000
+// through the SECOND token only; eoa1 then asks the NATIVE token to move 1000 of eoa0's coins, and
+// afterwards spends the approval where it was given. Judged by the same oracle as everything else.
+func (w *world) prelude() [][]*op {
+	e0, e1 := w.byName("eoa0"), w.byName("eoa1")
+	amt := big.NewInt(1000)
+	return [][]*op{
+		{w.directOp(e0, &call{Tok: 1, Method: "approve", A1: e1.Addr, Amount: amt})},
+		{w.directOp(e1, &call{Tok: 0, Method: "transferFrom", A1: e0.Addr, A2: e1.Addr, Amount: amt})},
+		{w.directOp(e1, &call{Tok: 1, Method: "transferFrom", A1: e0.Addr, A2: e1.Addr, Amount: amt})},
+	}
+}
+
+func (w *world) byName(n string) *holder {
+	for _, h := range w.holders {
+		if h.Name == n {
+			return h
+		}
+	}
+	panic("no holder " + n)
 }
